@@ -5,7 +5,7 @@ Tie to the code, on every run:
     taskpools are run (1-4 ranks, several thread counts) with logging operators / logging data collections;
     every transcript line is recomputed by the compiled Lean model (pv_C22) and compared;
   * an oracle written from the property text (not from the model) is evaluated on the implementation's output;
-  * the task-space headers (and, for reduce.jdf, the dependency lines) of the four .jdf files are parsed from the
+  * the task-space headers and the dependency lines of the .jdf files (apply: spaces only) are parsed from the
     current source text, enumerated on sampled sizes and compared with the model's index sets.
 """
 import os, re, math, json, concurrent.futures, pv
@@ -585,7 +585,7 @@ FINDING_CASES = [
      'parsec_reduce_col_New(src, dest, op, data) on a 2x2-tile matrix: the leaf task space is rows 0..lnt x columns 0..lmt (M, N swapped and one too large), data_of is called out of range'),
     ('f-wraprow', 1, 1, ['wrapper row 2 2'], 'parsec_reduce_row_New-crashes',
      'parsec_reduce_row_New(src, dest, op, data) on a 2x2-tile matrix: column range 0..lmt, out-of-range data_of'),
-    ('f-maphang', 2, 1, ['watchdog 25', 'maphang 1 1 1 2'], 'map-operator-hangs-on-rank-without-local-tile',
+    ('f-maphang', 2, 1, ['watchdog 15', 'maphang 1 1 1 2'], 'map-operator-hangs-on-rank-without-local-tile',
      'parsec_map_operator_New on 2 ranks, 1x1 tiles: the rank that owns no tile never completes (nb_tasks = 0, nb_pending_actions stays 1)'),
 ]
 
